@@ -29,13 +29,14 @@ def hcase(c, b, names, tables):
         flows.append({"type": "Norton", "pname": "EquivalentPlasticStrain" if b["flow"] == "Plastic" else "EquivalentViscoplasticStrain"})
     h = {"id": c["id"], "beh": names[b["key"]], "hyp": c["hyp"], "mode": "jacobian", "mp": {}, "par": {"epsilon": [1, 10 ** 14], "theta": [1, 2]},
          "law": {"scheme": "theta", "young": [el[0], 1], "nu": el[1], "theta": [1, 2], "flows": flows},
-         "sden": tables["sden"], "rs": 1024, "e0": [0] * 6, "de": [0] * 6, "dt": [1, 1], "path": c["path"], "njeps": c["njeps"]}
+         "sden": tables["sden"], "rs": 1024, "e0": c["e0"], "de": [0] * 6, "dt": [1, 1], "path": c["path"], "njeps": c["njeps"], "blockclass": c["blockclass"]}
     if flows:
         # the path starts from a state that already has an equivalent (visco)plastic strain: several hardening rules switch at
         # p = 0 (e.g. Swift: R0 for p <= 0), where the centered differences of the generated code straddle the switch
         h["p0"] = [c["p0"]]
     # ... and from a non-zero porosity (the effective porosity is clamped at zero)
     h["isv0"] = {"Porosity": c["f0"]}
+    h["mpdefault"] = [0, 1]
     h["par"]["theta"] = c["theta"]
     h["law"]["theta"] = c["theta"]
     if b["fam"] == "hand":   # the probe: a Norton law with exponent 3
@@ -72,7 +73,7 @@ def run(ctx):
     probe_rejected = False
     for bd in bad:
         c = byid[bd["id"]]
-        worst = [x for x in bd["obs"]["blocks"] if x["cls"] > -5]
+        worst = [x for x in bd["obs"]["blocks"] if x["cls"] > c["blockclass"] and x["bad"] >= 3]
         for f in bd["fails"]:
             if f.startswith("selftest:"):
                 raise Broken("self-test probe: %s (%s)" % (f, json.dumps(worst)[:400]))
@@ -82,7 +83,7 @@ def run(ctx):
     probes = [m for m in merged if m["cfg"]["pot"] == "Probe"]
     real = [m for m in merged if m["cfg"]["pot"] != "Probe"]
     if ctx.replay_only is None:
-        if not probes or not all(any(x["blk"] == "dfp_ddeel" and x["cls"] > -5 for x in m["blocks"]) for m in probes):
+        if not probes or not all(any(x["blk"] == "dfp_ddeel" and x["cls"] > -5 and x["bad"] >= 3 for x in m["blocks"]) for m in probes):
             raise Broken("the probe with a wrong jacobian block was not reported: the comparison facility is not exercised")
         silent = [m["bkey"] for m in real if m["cfg"]["flow"] != "none" and not m["active"]]
         stuck = sorted({m["bkey"] for m in real if m["steps_ok"] == 0})
